@@ -12,9 +12,11 @@ import Teleport.Lemmas.Redial
 import Teleport.Lemmas.RedialLock
 import Teleport.Lemmas.RedialTie
 import Teleport.Gen.Transitions
+import Teleport.Lemmas.SrcPaths
 import Teleport.Gen.Redial
 import Teleport.Lemmas.RedialProgress
 import Teleport.Lemmas.RedialStorm
+import Teleport.Drv.C13G
 namespace Teleport
 namespace C13
 open Teleport.Redial
@@ -350,8 +352,8 @@ def pcOf (s : State) (i : Nat) : Option Pc := (s.threads[i]?).map Thread.pc
 /-- a session WITHOUT redial function whose pusher's write hit the closed socket. -/
 def noRedialProbe : State := { writeProbe .ok false true false with budget := 0 }
 
-/-- the regenerated flow of `session.redialForClient`. -/
-def entryFlow : List SrcFlow.Ev := Gen.flow_session_redialForClient
+/-- the regenerated control-flow paths of `session.redialForClient`, as tags (`return` with its operand). -/
+def entryPaths : List (List String) := Gen.tpaths_session_redialForClient.map SrcPaths.rtags
 
 /-- a pusher that found connection 0 dead (EOF) and stands before the lock of `redialForClient`. -/
 def lockProbe : Option State := run (State.init 1 true) [.lose 0, .push, .th 1, .th 1]
@@ -366,16 +368,21 @@ def lockProbe : Option State := run (State.init 1 true) [.lose 0, .push, .th 1, 
     argument of `C13_single_redial`); the compare-and-swap to Redialing, won exactly from the
     statuses of `Redial.casFrom`; the closure called only after a won compare-and-swap, in status
     Redialing, its verdict returned; `false` after a lost one; the unlock last on every path
-    (`C13_lock_mutex`). In the regenerated flow of the function `s.lock.Lock()` is the first statement
-    of interest — before it only a `return false` — and `Unlock` is deferred, as the model's thread
-    is blocked while `lock` is set, sets it, runs the whole body in one step and clears it. The
+    (`C13_lock_mutex`). The regenerated control-flow paths of the function are exactly four: `return
+    false` before anything else; lock, `return true`, unlock; lock, compare-and-swap won, the closure,
+    its verdict returned, unlock; lock, compare-and-swap lost, `return false`, unlock — the unlock
+    last on every path that locked, as the model's thread is blocked while `lock` is set, sets it,
+    runs the whole body in one step and clears it. The
     closure is called nowhere else and only with the lock held. -/
 theorem C13_redial_entry_tie :
     Gen.transitions_missing = [] ∧
-    keys (mainFlow entryFlow) =
-      ["lock:lock.Lock", "cas:" ++ casName .redialing entryFrom, "call:redialForClientLocked"] ∧
-    ((entryFlow.filter SrcFlow.Ev.inClosure).map fun e => (e.key, e.guards)) = [("lock:lock.Unlock", ["defer{"])] ∧
-    ((upto (fun e => e.is "lock" "lock.Lock") entryFlow).map fun l => l.map fun e => (e.key, e.x)) = some [("return:", "false")] ∧
+    Gen.tpaths_session_redialForClient_missing = [] ∧
+    SrcFlow.sameSet entryPaths
+      [["return:false"],
+       ["lock:lock.Lock", "return:true", "lock:lock.Unlock"],
+       ["lock:lock.Lock", "cas:" ++ casName .redialing entryFrom ++ "=ok", "call:redialForClientLocked",
+        "return:redialForClientLocked()", "lock:lock.Unlock"],
+       ["lock:lock.Lock", "cas:" ++ casName .redialing entryFrom ++ "=fail", "return:false", "lock:lock.Unlock"]] = true ∧
     (lockProbe.bind fun s => threadStep { s with lock := true } 1) = none ∧
     ((lockProbe.bind fun s => threadStep s 1).map fun t => (t.lock, pcOf t 1)) = some (true, some (.xLocked 0)) ∧
     ((lockProbe.bind fun s => (threadStep s 1).bind fun t => threadStep t 1).map fun t => (t.lock, t.redials)) = some (false, [0]) ∧
@@ -385,7 +392,6 @@ theorem C13_redial_entry_tie :
     pcAfter noRedialProbe 1 = some (.wDone 102) ∧
     (allStatus.map fun st => entryModel st true) = allStatus.map (fun st => if casFrom st then "closure" else "false") ∧
     (allStatus.all fun st => entryModel st false == "true") = true ∧
-    ((entryFlow.filter fun e => e.is "call" "redialForClientLocked").map fun e => e.use) = ["returned"] ∧
     (Gen.lock_held_calls.filter fun r => r.1 == "redialForClientLocked") =
       [("redialForClientLocked", "session.redialForClient", "lock-held")] := by
   repeat' apply And.intro
@@ -745,6 +751,39 @@ example : ∃ s t, ReachableNF 3 false s ∧ runIC s [0, 0, 0, 0, 0, 0, 0, 0, 0]
       [.call, .th 1, .th 1, .lose 0]).getD (State.init 3 false)) [0, 0, 0, 0, 0, 0, 0, 0, 0]).getD (State.init 3 false)) := by
     decide
   exact ⟨_, _, ⟨_, h⟩, h2, quiescent_of_firstEnabled (by decide), by decide, by decide⟩
+/-! ## the forced stale-reader schedules (`c13stale`, Drv/C13G, harness c13g.go) -/
+
+/-- the schedules that the correspondence harness forces on the real code for `C13_no_stuck_witness`
+    (step `sfin`, gate `final.store`) and `C13_measure_storm_witness` (step `storm`) respect one wait
+    of the real code that `Model/Redial` leaves out — `readDisconnected` stands in `graceCtxWait`,
+    between the index delete and the cancel loop, while a Push is in flight on the session
+    (`D13G.stepG`: a reader at `dCancel` does not move while a pusher is inside `Push`). Every step so
+    scheduled is a step of the model: what the harness forces and the driver predicts is a run of the
+    machine that all theorems of this file quantify over. -/
+theorem C13_ctxwait_schedule_is_model_run (s t : State) (i : Nat)
+    (h : Drv.D13G.stepG s i = some t) : step s (.th i) = some t := by
+  unfold Drv.D13G.stepG at h
+  simp only [step]
+  split at h
+  · split at h
+    · simp at h
+    · exact h
+  · exact h
+
+/-- non-vacuity: the reader of the lost connection 0 takes its first step under `stepG`. -/
+example : (Drv.D13G.stepG { State.init 3 false with dead := [0] } 0).isSome = true := by decide
+
+/-- … and the converse fails: the model lets the reader of the lost connection run its cancel loop
+    (and then `socket.Close()`, `redialForClient`) while a Push stands at its status check; the real
+    code holds that reader in `graceCtxWait` until the Push has returned (observed: `c13stale …
+    steps=storm:2:u` shows ONE redial round on the real code). The storm of
+    `C13_measure_storm_witness` uses exactly such steps (a Push that never leaves `Push`), so it is a
+    run of the model that the real code cannot take with a single Push: the model over-approximates
+    here (sound for every invariant above; the "no measure" statement is about the model). -/
+theorem C13_ctxwait_not_in_model_witness :
+    ∃ s, run (State.init 3 true) [.push, .th 1, .lose 0, .th 0, .th 0, .th 0, .th 0] = some s ∧
+      s.threads[0]? = some ⟨.reader 0, .dCancel .ok⟩ ∧ s.threads[1]? = some ⟨.pusher, .wWrite 0 .ok⟩ ∧
+      Drv.D13G.stepG s 0 = none ∧ (threadStep s 0).isSome = true := by decide
 -- END liveness
 
 end C13
